@@ -1,0 +1,759 @@
+/*   Copyright 2024 Perry Lorier
+ *
+ *  Licensed under the Apache License, Version 2.0 (the "License");
+ *  you may not use this file except in compliance with the License.
+ *  You may obtain a copy of the License at
+ *
+ *      http://www.apache.org/licenses/LICENSE-2.0
+ *
+ *  Unless required by applicable law or agreed to in writing, software
+ *  distributed under the License is distributed on an "AS IS" BASIS,
+ *  WITHOUT WARRANTIES OR CONDITIONS OF ANY KIND, either express or implied.
+ *  See the License for the specific language governing permissions and
+ *  limitations under the License.
+ *
+ *  SPDX-License-Identifier: Apache-2.0
+ *
+ *  Simulation seam.  Only compiled with `--cfg erbium_verif`.
+ *
+ *  An external harness installs a `SimKernel` for the current thread.  The modules `tokio`, `nix`
+ *  and `mio` below re-export the real crates and replace only the socket layer with thin wrappers
+ *  that forward to that kernel, so `use erbium_net::sim::tokio;` at the top of a module swaps the
+ *  operating system for the simulated one without touching the rest of the module.  There is no
+ *  simulation logic here.
+ */
+
+use std::cell::RefCell;
+use std::os::unix::io::RawFd;
+use std::rc::Rc;
+use std::task::{Context, Poll};
+
+/// A raw `errno` value.
+pub type Errno = i32;
+
+#[derive(Clone, Copy, Debug, PartialEq, Eq)]
+pub enum Interest {
+    Read,
+    Write,
+}
+
+#[derive(Clone, Debug)]
+pub struct Cmsg {
+    pub level: i32,
+    pub ty: i32,
+    pub data: Vec<u8>,
+}
+
+#[derive(Debug)]
+pub struct RecvOut {
+    pub len: usize,
+    /// Raw `sockaddr_*` bytes of the sender, if the socket type reports one.
+    pub addr: Option<Vec<u8>>,
+    pub cmsgs: Vec<Cmsg>,
+}
+
+/// The system call surface erbium needs.  Addresses are raw `sockaddr_*` bytes, control messages
+/// are raw `cmsg` payloads, errors are raw `errno` values; every call is non-blocking.
+pub trait SimKernel {
+    fn socket(&self, domain: i32, ty: i32, protocol: i32) -> Result<RawFd, Errno>;
+    fn close(&self, fd: RawFd);
+    fn bind(&self, fd: RawFd, addr: &[u8]) -> Result<(), Errno>;
+    fn listen(&self, fd: RawFd) -> Result<(), Errno>;
+    fn connect(&self, fd: RawFd, addr: &[u8]) -> Result<(), Errno>;
+    fn take_error(&self, fd: RawFd) -> Result<(), Errno>;
+    fn accept(&self, fd: RawFd) -> Result<(RawFd, Vec<u8>), Errno>;
+    fn getsockname(&self, fd: RawFd) -> Result<Vec<u8>, Errno>;
+    fn getpeername(&self, fd: RawFd) -> Result<Vec<u8>, Errno>;
+    fn setsockopt(&self, fd: RawFd, name: &str, val: &[u8]) -> Result<(), Errno>;
+    fn recvmsg(&self, fd: RawFd, buf: &mut [u8], flags: i32) -> Result<RecvOut, Errno>;
+    fn sendmsg(
+        &self,
+        fd: RawFd,
+        buf: &[u8],
+        cmsgs: &[Cmsg],
+        flags: i32,
+        to: Option<&[u8]>,
+    ) -> Result<usize, Errno>;
+    fn shutdown(&self, fd: RawFd, how: i32) -> Result<(), Errno>;
+    fn poll_ready(&self, fd: RawFd, interest: Interest, cx: &mut Context<'_>)
+    -> Poll<Result<(), Errno>>;
+    fn clear_ready(&self, fd: RawFd, interest: Interest);
+    /// A scheduling point: `Pending` (after arranging a wake-up) sends the caller to the back of
+    /// the run queue.
+    fn poll_yield(&self, site: &'static str, cx: &mut Context<'_>) -> Poll<()>;
+}
+
+thread_local! {
+    static KERNEL: RefCell<Option<Rc<dyn SimKernel>>> = const { RefCell::new(None) };
+}
+
+pub fn install(kernel: Option<Rc<dyn SimKernel>>) {
+    KERNEL.with(|k| *k.borrow_mut() = kernel);
+}
+
+fn try_kernel() -> Option<Rc<dyn SimKernel>> {
+    KERNEL.try_with(|k| k.borrow().clone()).ok().flatten()
+}
+
+fn kernel() -> Rc<dyn SimKernel> {
+    try_kernel().expect("no simulated kernel installed on this thread")
+}
+
+fn ioerr(e: Errno) -> std::io::Error {
+    std::io::Error::from_raw_os_error(e)
+}
+
+/// An owned simulated descriptor.
+#[derive(Debug)]
+struct SimFd(RawFd);
+
+impl Drop for SimFd {
+    fn drop(&mut self) {
+        if let Some(k) = try_kernel() {
+            k.close(self.0)
+        }
+    }
+}
+
+fn sockaddr_bytes<S: ::nix::sys::socket::SockaddrLike>(a: &S) -> Vec<u8> {
+    unsafe { std::slice::from_raw_parts(a.as_ptr() as *const u8, a.len() as usize).to_vec() }
+}
+
+fn std_sockaddr_bytes(a: std::net::SocketAddr) -> Vec<u8> {
+    sockaddr_bytes(&::nix::sys::socket::SockaddrStorage::from(a))
+}
+
+fn bytes_to<S: ::nix::sys::socket::SockaddrLike>(b: &[u8]) -> Option<S> {
+    let mut storage = [0u64; 16]; /* aligned, as large as sockaddr_storage */
+    let n = b.len().min(128);
+    unsafe {
+        std::ptr::copy_nonoverlapping(b.as_ptr(), storage.as_mut_ptr() as *mut u8, n);
+        S::from_raw(
+            storage.as_ptr() as *const ::nix::libc::sockaddr,
+            Some(n as ::nix::libc::socklen_t),
+        )
+    }
+}
+
+fn bytes_to_std(b: &[u8]) -> std::io::Result<std::net::SocketAddr> {
+    use crate::addr::NetAddrExt as _;
+    bytes_to::<::nix::sys::socket::SockaddrStorage>(b)
+        .and_then(|s| s.to_std_socket_addr())
+        .ok_or_else(|| ioerr(::nix::libc::EAFNOSUPPORT))
+}
+
+fn unix_bytes(name: &[u8], is_abstract: bool) -> std::io::Result<Vec<u8>> {
+    let a = if is_abstract {
+        ::nix::sys::socket::UnixAddr::new_abstract(name)
+    } else {
+        ::nix::sys::socket::UnixAddr::new(name)
+    }
+    .map_err(|e| ioerr(e as i32))?;
+    Ok(sockaddr_bytes(&a))
+}
+
+fn path_unix_bytes(path: &std::path::Path) -> std::io::Result<Vec<u8>> {
+    use std::os::unix::ffi::OsStrExt as _;
+    let b = path.as_os_str().as_bytes();
+    if b.first() == Some(&0) {
+        unix_bytes(&b[1..], true)
+    } else {
+        unix_bytes(b, false)
+    }
+}
+
+fn bytes_to_tokio_unix(b: &[u8]) -> std::io::Result<::tokio::net::unix::SocketAddr> {
+    use std::os::unix::net::SocketAddr;
+    let a: ::nix::sys::socket::UnixAddr =
+        bytes_to(b).ok_or_else(|| ioerr(::nix::libc::EAFNOSUPPORT))?;
+    let std_addr = if let Some(p) = a.path() {
+        SocketAddr::from_pathname(p)?
+    } else if let Some(n) = a.as_abstract() {
+        use std::os::linux::net::SocketAddrExt as _;
+        SocketAddr::from_abstract_name(n)?
+    } else {
+        /* std offers no constructor for the unnamed address */
+        std::os::unix::net::UnixDatagram::unbound()?.local_addr()?
+    };
+    Ok(std_addr.into())
+}
+
+struct Ready(RawFd, Interest);
+impl std::future::Future for Ready {
+    type Output = std::io::Result<()>;
+    fn poll(self: std::pin::Pin<&mut Self>, cx: &mut Context<'_>) -> Poll<Self::Output> {
+        kernel().poll_ready(self.0, self.1, cx).map_err(ioerr)
+    }
+}
+
+struct Yield(&'static str);
+impl std::future::Future for Yield {
+    type Output = ();
+    fn poll(self: std::pin::Pin<&mut Self>, cx: &mut Context<'_>) -> Poll<()> {
+        kernel().poll_yield(self.0, cx)
+    }
+}
+
+fn poll_stream_read(
+    fd: RawFd,
+    cx: &mut Context<'_>,
+    buf: &mut ::tokio::io::ReadBuf<'_>,
+) -> Poll<std::io::Result<()>> {
+    let k = kernel();
+    loop {
+        match k.poll_ready(fd, Interest::Read, cx) {
+            Poll::Pending => return Poll::Pending,
+            Poll::Ready(Err(e)) => return Poll::Ready(Err(ioerr(e))),
+            Poll::Ready(Ok(())) => (),
+        }
+        match k.recvmsg(fd, buf.initialize_unfilled(), 0) {
+            Ok(out) => {
+                buf.advance(out.len);
+                return Poll::Ready(Ok(()));
+            }
+            Err(::nix::libc::EAGAIN) => k.clear_ready(fd, Interest::Read),
+            Err(e) => return Poll::Ready(Err(ioerr(e))),
+        }
+    }
+}
+
+fn poll_stream_write(fd: RawFd, cx: &mut Context<'_>, buf: &[u8]) -> Poll<std::io::Result<usize>> {
+    let k = kernel();
+    loop {
+        match k.poll_ready(fd, Interest::Write, cx) {
+            Poll::Pending => return Poll::Pending,
+            Poll::Ready(Err(e)) => return Poll::Ready(Err(ioerr(e))),
+            Poll::Ready(Ok(())) => (),
+        }
+        match k.sendmsg(fd, buf, &[], 0, None) {
+            Ok(n) => return Poll::Ready(Ok(n)),
+            Err(::nix::libc::EAGAIN) => k.clear_ready(fd, Interest::Write),
+            Err(e) => return Poll::Ready(Err(ioerr(e))),
+        }
+    }
+}
+
+macro_rules! sim_stream {
+    ($name:ident) => {
+        #[derive(Debug)]
+        pub struct $name {
+            fd: super::super::SimFd,
+        }
+        impl ::tokio::io::AsyncRead for $name {
+            fn poll_read(
+                self: std::pin::Pin<&mut Self>,
+                cx: &mut std::task::Context<'_>,
+                buf: &mut ::tokio::io::ReadBuf<'_>,
+            ) -> std::task::Poll<std::io::Result<()>> {
+                super::super::poll_stream_read(self.fd.0, cx, buf)
+            }
+        }
+        impl ::tokio::io::AsyncWrite for $name {
+            fn poll_write(
+                self: std::pin::Pin<&mut Self>,
+                cx: &mut std::task::Context<'_>,
+                buf: &[u8],
+            ) -> std::task::Poll<std::io::Result<usize>> {
+                super::super::poll_stream_write(self.fd.0, cx, buf)
+            }
+            fn poll_flush(
+                self: std::pin::Pin<&mut Self>,
+                _cx: &mut std::task::Context<'_>,
+            ) -> std::task::Poll<std::io::Result<()>> {
+                std::task::Poll::Ready(Ok(()))
+            }
+            fn poll_shutdown(
+                self: std::pin::Pin<&mut Self>,
+                _cx: &mut std::task::Context<'_>,
+            ) -> std::task::Poll<std::io::Result<()>> {
+                std::task::Poll::Ready(
+                    super::super::kernel()
+                        .shutdown(self.fd.0, ::nix::libc::SHUT_WR)
+                        .map_err(super::super::ioerr),
+                )
+            }
+        }
+    };
+}
+
+pub mod tokio {
+    pub use ::tokio::*;
+
+    pub mod net {
+        pub use ::tokio::net::unix;
+        use ::nix::libc;
+        use crate::sim::{Interest, Ready, SimFd, ioerr, kernel};
+        use std::io;
+
+        fn stream_socket(domain: i32) -> io::Result<SimFd> {
+            kernel()
+                .socket(domain, libc::SOCK_STREAM, 0)
+                .map(SimFd)
+                .map_err(ioerr)
+        }
+
+        fn first_addr<A: std::net::ToSocketAddrs>(a: A) -> io::Result<std::net::SocketAddr> {
+            a.to_socket_addrs()?
+                .next()
+                .ok_or_else(|| ioerr(libc::EINVAL))
+        }
+
+        fn domain_of(a: &std::net::SocketAddr) -> i32 {
+            if a.is_ipv4() {
+                libc::AF_INET
+            } else {
+                libc::AF_INET6
+            }
+        }
+
+        async fn stream_connect(fd: &SimFd, addr: &[u8]) -> io::Result<()> {
+            let r = kernel().connect(fd.0, addr);
+            match r {
+                Ok(()) => Ok(()),
+                Err(libc::EINPROGRESS) => {
+                    Ready(fd.0, Interest::Write).await?;
+                    kernel().take_error(fd.0).map_err(ioerr)
+                }
+                Err(e) => Err(ioerr(e)),
+            }
+        }
+
+        async fn stream_accept(fd: &SimFd) -> io::Result<(SimFd, Vec<u8>)> {
+            loop {
+                Ready(fd.0, Interest::Read).await?;
+                match kernel().accept(fd.0) {
+                    Ok((new, addr)) => return Ok((SimFd(new), addr)),
+                    Err(libc::EAGAIN) => kernel().clear_ready(fd.0, Interest::Read),
+                    Err(e) => return Err(ioerr(e)),
+                }
+            }
+        }
+
+        sim_stream!(TcpStream);
+        sim_stream!(UnixStream);
+
+        impl TcpStream {
+            pub async fn connect<A: std::net::ToSocketAddrs>(addr: A) -> io::Result<Self> {
+                let addr = first_addr(addr)?;
+                let fd = stream_socket(domain_of(&addr))?;
+                stream_connect(&fd, &crate::sim::std_sockaddr_bytes(addr)).await?;
+                Ok(Self { fd })
+            }
+            pub fn local_addr(&self) -> io::Result<std::net::SocketAddr> {
+                crate::sim::bytes_to_std(&kernel().getsockname(self.fd.0).map_err(ioerr)?)
+            }
+            pub fn peer_addr(&self) -> io::Result<std::net::SocketAddr> {
+                crate::sim::bytes_to_std(&kernel().getpeername(self.fd.0).map_err(ioerr)?)
+            }
+        }
+
+        impl UnixStream {
+            pub async fn connect<P: AsRef<std::path::Path>>(path: P) -> io::Result<Self> {
+                let fd = stream_socket(libc::AF_UNIX)?;
+                stream_connect(&fd, &crate::sim::path_unix_bytes(path.as_ref())?).await?;
+                Ok(Self { fd })
+            }
+        }
+
+        #[derive(Debug)]
+        pub struct TcpListener {
+            fd: SimFd,
+        }
+
+        impl TcpListener {
+            pub async fn bind<A: std::net::ToSocketAddrs>(addr: A) -> io::Result<Self> {
+                let addr = first_addr(addr)?;
+                let fd = stream_socket(domain_of(&addr))?;
+                let k = kernel();
+                k.bind(fd.0, &crate::sim::std_sockaddr_bytes(addr))
+                    .map_err(ioerr)?;
+                k.listen(fd.0).map_err(ioerr)?;
+                Ok(Self { fd })
+            }
+            pub async fn accept(&self) -> io::Result<(TcpStream, std::net::SocketAddr)> {
+                let (fd, addr) = stream_accept(&self.fd).await?;
+                Ok((TcpStream { fd }, crate::sim::bytes_to_std(&addr)?))
+            }
+            pub fn local_addr(&self) -> io::Result<std::net::SocketAddr> {
+                crate::sim::bytes_to_std(&kernel().getsockname(self.fd.0).map_err(ioerr)?)
+            }
+        }
+
+        #[derive(Debug)]
+        pub struct UnixListener {
+            fd: SimFd,
+        }
+
+        impl UnixListener {
+            pub fn bind<P: AsRef<std::path::Path>>(path: P) -> io::Result<Self> {
+                let fd = stream_socket(libc::AF_UNIX)?;
+                let k = kernel();
+                k.bind(fd.0, &crate::sim::path_unix_bytes(path.as_ref())?)
+                    .map_err(ioerr)?;
+                k.listen(fd.0).map_err(ioerr)?;
+                Ok(Self { fd })
+            }
+            pub async fn accept(&self) -> io::Result<(UnixStream, unix::SocketAddr)> {
+                let (fd, addr) = stream_accept(&self.fd).await?;
+                Ok((UnixStream { fd }, crate::sim::bytes_to_tokio_unix(&addr)?))
+            }
+        }
+
+        #[derive(Debug)]
+        pub struct UdpSocket {
+            fd: SimFd,
+        }
+
+        impl UdpSocket {
+            pub async fn bind<A: std::net::ToSocketAddrs>(addr: A) -> io::Result<Self> {
+                let addr = first_addr(addr)?;
+                let k = kernel();
+                let fd = SimFd(
+                    k.socket(domain_of(&addr), libc::SOCK_DGRAM, 0)
+                        .map_err(ioerr)?,
+                );
+                k.bind(fd.0, &crate::sim::std_sockaddr_bytes(addr))
+                    .map_err(ioerr)?;
+                Ok(Self { fd })
+            }
+            pub async fn connect<A: std::net::ToSocketAddrs>(&self, addr: A) -> io::Result<()> {
+                kernel()
+                    .connect(self.fd.0, &crate::sim::std_sockaddr_bytes(first_addr(addr)?))
+                    .map_err(ioerr)
+            }
+            pub fn local_addr(&self) -> io::Result<std::net::SocketAddr> {
+                crate::sim::bytes_to_std(&kernel().getsockname(self.fd.0).map_err(ioerr)?)
+            }
+            pub async fn send(&self, buf: &[u8]) -> io::Result<usize> {
+                loop {
+                    Ready(self.fd.0, Interest::Write).await?;
+                    match kernel().sendmsg(self.fd.0, buf, &[], 0, None) {
+                        Err(libc::EAGAIN) => kernel().clear_ready(self.fd.0, Interest::Write),
+                        r => return r.map_err(ioerr),
+                    }
+                }
+            }
+            pub async fn recv(&self, buf: &mut [u8]) -> io::Result<usize> {
+                loop {
+                    Ready(self.fd.0, Interest::Read).await?;
+                    match kernel().recvmsg(self.fd.0, buf, 0) {
+                        Err(libc::EAGAIN) => kernel().clear_ready(self.fd.0, Interest::Read),
+                        r => return r.map(|out| out.len).map_err(ioerr),
+                    }
+                }
+            }
+        }
+    }
+
+    pub mod io {
+        pub use ::tokio::io::*;
+
+        pub mod unix {
+            use crate::sim::{Interest, Ready, kernel};
+            use std::os::unix::io::{AsFd, AsRawFd, BorrowedFd, RawFd};
+
+            #[derive(Debug)]
+            pub struct AsyncFd<T: AsRawFd> {
+                inner: T,
+            }
+
+            pub struct AsyncFdReadyGuard<'a, T: AsRawFd> {
+                fd: &'a AsyncFd<T>,
+                interest: Interest,
+            }
+
+            impl<T: AsRawFd> AsyncFdReadyGuard<'_, T> {
+                pub fn clear_ready(&mut self) {
+                    kernel().clear_ready(self.fd.as_raw_fd(), self.interest)
+                }
+                pub fn retain_ready(&mut self) {}
+            }
+
+            impl<T: AsRawFd> AsyncFd<T> {
+                pub fn new(inner: T) -> std::io::Result<Self> {
+                    Ok(Self { inner })
+                }
+                pub fn get_ref(&self) -> &T {
+                    &self.inner
+                }
+                pub async fn readable(&self) -> std::io::Result<AsyncFdReadyGuard<'_, T>> {
+                    Ready(self.as_raw_fd(), Interest::Read).await?;
+                    Ok(AsyncFdReadyGuard {
+                        fd: self,
+                        interest: Interest::Read,
+                    })
+                }
+                pub async fn writable(&self) -> std::io::Result<AsyncFdReadyGuard<'_, T>> {
+                    Ready(self.as_raw_fd(), Interest::Write).await?;
+                    Ok(AsyncFdReadyGuard {
+                        fd: self,
+                        interest: Interest::Write,
+                    })
+                }
+            }
+
+            impl<T: AsRawFd> AsRawFd for AsyncFd<T> {
+                fn as_raw_fd(&self) -> RawFd {
+                    self.inner.as_raw_fd()
+                }
+            }
+
+            impl<T: AsRawFd> AsFd for AsyncFd<T> {
+                fn as_fd(&self) -> BorrowedFd<'_> {
+                    unsafe { BorrowedFd::borrow_raw(self.as_raw_fd()) }
+                }
+            }
+        }
+    }
+
+    pub mod sync {
+        pub use ::tokio::sync::*;
+        use crate::sim::Yield;
+
+        #[derive(Debug, Default)]
+        pub struct Mutex<T>(::tokio::sync::Mutex<T>);
+
+        impl<T> Mutex<T> {
+            pub fn new(t: T) -> Self {
+                Self(::tokio::sync::Mutex::new(t))
+            }
+            pub async fn lock(&self) -> ::tokio::sync::MutexGuard<'_, T> {
+                Yield("mutex.lock").await;
+                self.0.lock().await
+            }
+        }
+
+        #[derive(Debug, Default)]
+        pub struct RwLock<T>(::tokio::sync::RwLock<T>);
+
+        impl<T> RwLock<T> {
+            pub fn new(t: T) -> Self {
+                Self(::tokio::sync::RwLock::new(t))
+            }
+            pub async fn read(&self) -> ::tokio::sync::RwLockReadGuard<'_, T> {
+                Yield("rwlock.read").await;
+                self.0.read().await
+            }
+            pub async fn write(&self) -> ::tokio::sync::RwLockWriteGuard<'_, T> {
+                Yield("rwlock.write").await;
+                self.0.write().await
+            }
+        }
+    }
+}
+
+pub mod mio {
+    pub use ::mio::*;
+
+    pub mod net {
+        pub use ::mio::net::{TcpListener, TcpStream, UnixDatagram, UnixListener, UnixStream};
+        use crate::sim::{SimFd, ioerr, kernel};
+        use std::os::unix::io::{AsRawFd, RawFd};
+
+        #[derive(Debug)]
+        pub struct UdpSocket {
+            fd: SimFd,
+        }
+
+        impl UdpSocket {
+            pub fn bind(addr: std::net::SocketAddr) -> std::io::Result<Self> {
+                let domain = if addr.is_ipv4() {
+                    ::nix::libc::AF_INET
+                } else {
+                    ::nix::libc::AF_INET6
+                };
+                let k = kernel();
+                let fd = SimFd(
+                    k.socket(domain, ::nix::libc::SOCK_DGRAM, 0)
+                        .map_err(ioerr)?,
+                );
+                k.bind(fd.0, &crate::sim::std_sockaddr_bytes(addr))
+                    .map_err(ioerr)?;
+                Ok(Self { fd })
+            }
+            pub fn local_addr(&self) -> std::io::Result<std::net::SocketAddr> {
+                crate::sim::bytes_to_std(&kernel().getsockname(self.fd.0).map_err(ioerr)?)
+            }
+        }
+
+        impl AsRawFd for UdpSocket {
+            fn as_raw_fd(&self) -> RawFd {
+                self.fd.0
+            }
+        }
+    }
+}
+
+pub mod nix {
+    pub use ::nix::*;
+
+    pub mod libc {
+        pub use ::nix::libc::*;
+        use crate::sim::kernel;
+
+        fn fail(e: i32) -> c_int {
+            unsafe { *__errno_location() = e };
+            -1
+        }
+
+        /// # Safety
+        /// Same contract as `libc::socket` (none beyond plain values).
+        pub unsafe fn socket(domain: c_int, ty: c_int, protocol: c_int) -> c_int {
+            match kernel().socket(domain, ty & !(SOCK_CLOEXEC | SOCK_NONBLOCK), protocol) {
+                Ok(fd) => fd,
+                Err(e) => fail(e),
+            }
+        }
+
+        /// # Safety
+        /// `val` must point to `len` readable bytes.
+        pub unsafe fn setsockopt(
+            fd: c_int,
+            level: c_int,
+            name: c_int,
+            val: *const c_void,
+            len: socklen_t,
+        ) -> c_int {
+            let bytes = unsafe { std::slice::from_raw_parts(val as *const u8, len as usize) };
+            match kernel().setsockopt(fd, &format!("{}:{}", level, name), bytes) {
+                Ok(()) => 0,
+                Err(e) => fail(e),
+            }
+        }
+    }
+
+    pub mod sys {
+        pub use ::nix::sys::*;
+
+        pub mod socket {
+            pub use ::nix::sys::socket::*;
+            use crate::sim::{Cmsg, kernel};
+            use ::nix::errno::Errno;
+            use ::nix::libc;
+            use std::io::{IoSlice, IoSliceMut};
+            use std::os::unix::io::{AsFd, AsRawFd, RawFd};
+
+            pub struct RecvMsg<S> {
+                pub address: Option<S>,
+                pub bytes: usize,
+                cmsgs: Vec<ControlMessageOwned>,
+                data: Vec<u8>,
+            }
+
+            impl<S> RecvMsg<S> {
+                pub fn cmsgs(&self) -> ::nix::Result<std::vec::IntoIter<ControlMessageOwned>> {
+                    Ok(self.cmsgs.clone().into_iter())
+                }
+                pub fn iovs(&self) -> std::option::IntoIter<Vec<u8>> {
+                    if self.bytes == 0 {
+                        None
+                    } else {
+                        Some(self.data.clone())
+                    }
+                    .into_iter()
+                }
+            }
+
+            fn read_as<T: Copy>(b: &[u8]) -> Option<T> {
+                if b.len() < std::mem::size_of::<T>() {
+                    None
+                } else {
+                    Some(unsafe { std::ptr::read_unaligned(b.as_ptr() as *const T) })
+                }
+            }
+
+            fn bytes_of<T>(t: &T) -> Vec<u8> {
+                unsafe {
+                    std::slice::from_raw_parts(t as *const T as *const u8, std::mem::size_of::<T>())
+                        .to_vec()
+                }
+            }
+
+            pub fn recvmsg<'a, S: SockaddrLike>(
+                fd: RawFd,
+                iov: &mut [IoSliceMut<'_>],
+                _cmsg_buffer: Option<&'a mut [u8]>,
+                flags: MsgFlags,
+            ) -> ::nix::Result<RecvMsg<S>> {
+                let buf: &mut [u8] = match iov.first_mut() {
+                    Some(b) => b,
+                    None => return Err(Errno::EINVAL),
+                };
+                let out = kernel()
+                    .recvmsg(fd, buf, flags.bits())
+                    .map_err(Errno::from_raw)?;
+                let mut cmsgs = vec![];
+                for c in &out.cmsgs {
+                    match (c.level, c.ty) {
+                        (libc::IPPROTO_IP, libc::IP_PKTINFO) => {
+                            if let Some(pi) = read_as::<libc::in_pktinfo>(&c.data) {
+                                cmsgs.push(ControlMessageOwned::Ipv4PacketInfo(pi))
+                            }
+                        }
+                        (libc::IPPROTO_IPV6, libc::IPV6_PKTINFO) => {
+                            if let Some(pi) = read_as::<libc::in6_pktinfo>(&c.data) {
+                                cmsgs.push(ControlMessageOwned::Ipv6PacketInfo(pi))
+                            }
+                        }
+                        _ => (),
+                    }
+                }
+                Ok(RecvMsg {
+                    address: out.addr.as_deref().and_then(crate::sim::bytes_to::<S>),
+                    bytes: out.len,
+                    cmsgs,
+                    data: buf[..out.len].to_vec(),
+                })
+            }
+
+            pub fn sendmsg<S: SockaddrLike>(
+                fd: RawFd,
+                iov: &[IoSlice<'_>],
+                cmsgs: &[ControlMessage],
+                flags: MsgFlags,
+                addr: Option<&S>,
+            ) -> ::nix::Result<usize> {
+                let mut data = vec![];
+                for i in iov {
+                    data.extend_from_slice(i);
+                }
+                let mut raw = vec![];
+                for c in cmsgs {
+                    match c {
+                        ControlMessage::Ipv4PacketInfo(pi) => raw.push(Cmsg {
+                            level: libc::IPPROTO_IP,
+                            ty: libc::IP_PKTINFO,
+                            data: bytes_of::<libc::in_pktinfo>(pi),
+                        }),
+                        ControlMessage::Ipv6PacketInfo(pi) => raw.push(Cmsg {
+                            level: libc::IPPROTO_IPV6,
+                            ty: libc::IPV6_PKTINFO,
+                            data: bytes_of::<libc::in6_pktinfo>(pi),
+                        }),
+                        _ => return Err(Errno::EOPNOTSUPP),
+                    }
+                }
+                let to = addr.map(crate::sim::sockaddr_bytes);
+                kernel()
+                    .sendmsg(fd, &data, &raw, flags.bits(), to.as_deref())
+                    .map_err(Errno::from_raw)
+            }
+
+            pub fn setsockopt<F: AsFd, O: SetSockOpt>(
+                fd: &F,
+                _opt: O,
+                val: &O::Val,
+            ) -> ::nix::Result<()> {
+                let bytes = unsafe {
+                    std::slice::from_raw_parts(
+                        val as *const O::Val as *const u8,
+                        std::mem::size_of_val(val),
+                    )
+                };
+                kernel()
+                    .setsockopt(fd.as_fd().as_raw_fd(), std::any::type_name::<O>(), bytes)
+                    .map_err(Errno::from_raw)
+            }
+        }
+    }
+}
